@@ -7,16 +7,14 @@ open MakoModel.Generated.ModFile
 
 /-! ### obligations on the regenerated constants (the two repairs) -/
 
-/-- `_compile_module_file` writes until every byte is written (fix of F4) -/
+/-- `_compile_module_file` writes until every byte is written (a buffered file object; repaired in /repo 626444f -
+undoing the repair breaks this obligation) -/
 theorem writeLoops_on : writeLoops = true := by decide
-/-- `_compile_module_file` removes the cached bytecode of the file it replaced (fix of F-C15-2) -/
+/-- `_compile_module_file` removes the cached bytecode of the file it replaced (repaired in /repo 0e8e31e - undoing
+the repair breaks this obligation) -/
 theorem dropsBytecode_on : dropsBytecode = true := by decide
 /-- … also after a user-supplied `module_writer` (the removal sits after the if/else) -/
 theorem dropsBytecodeHook_on : dropsBytecodeHook = true := by decide
-/-- the source's mtime is compared in whole seconds, like the module's (`[stat.ST_MTIME]` on both sides): the
-`Nat` time stamps of the model are what the code compares -/
-theorem mtimes_whole_seconds : mtimesWholeSeconds = true := by decide
-
 theorem guard_all (p : Plan) : p.guard := Or.inl writeLoops_on
 
 theorem afterGroup_coherent (w : World) (g : GroupOut) : PycCoherent (afterGroup w g) := by
